@@ -208,8 +208,10 @@ class KernelSeam:
             return []
         return self.probe_fn(self.n_kernels, z_np)
 
-    def kernel_eval(self, kernel, z, val, kind):
-        self.trace.log("kernel.eval", i=self.n_kernels, n=int(len(z)), kind=kind)
+    def kernel_eval(self, kernel, z, val, kind, mutated=False):
+        self.trace.log("kernel.eval", i=self.n_kernels, n=int(len(z)), kind=kind, mutated=bool(mutated))
+        if mutated:
+            self.n_mutated = getattr(self, "n_mutated", 0) + 1
         if self.record:
             self.evals.append(
                 {
@@ -219,6 +221,7 @@ class KernelSeam:
                     "z": to_np(z).copy(),
                     "val": to_np(val).copy(),
                     "val_type": type(val).__module__,
+                    "mutated": bool(mutated),
                     "prior": self._last.get("prior"),
                     "like": self._last.get("like"),
                     "log_q": self._last.get("log_q"),
